@@ -12,7 +12,7 @@ use serde_json::{json, Value};
 pub fn meta() -> Meta {
     Meta {
         level: "exploration",
-        rule: "(a) every malformed lexeme generated from the reference definition of its class (unterminated strings and bit strings over 9 body atoms up to 2 atoms, unterminated nested block comments up to 3 atoms, base prefixes without digits, exponent markers without digits over 7 mantissas x sign x underscores, malformed version headers, identifiers with a forbidden character) spliced at every position of every sequence of at most 2 tokens over the full token alphabet (unterminated forms only last); (b,c) every sequence of at most 3 tokens over the token alphabet with text-dependent and malformed variants, through parse_check_lex and the full pipeline; the file-system configurations of C18 with one directory and three files (faults in files included directly and through another file); each case enumerated once; non-trivial = splice cases with at least one neighbouring token, pipeline cases with at least one statement node; outcomes = distinct (gating decision, diagnostic counts) observations",
+        rule: "(a) every malformed lexeme generated from the reference definition of its class (unterminated strings and bit strings over 9 body atoms up to 2 atoms, unterminated nested block comments up to 3 atoms, base prefixes without digits, exponent markers without digits over 11 mantissas (decimal, and with a binary or octal prefix) x sign x underscores, malformed version headers, identifiers with a forbidden character) spliced at every position of every sequence of at most 2 tokens over the full token alphabet (unterminated forms only last); (b,c) every sequence of at most 3 tokens over the token alphabet with text-dependent and malformed variants, through parse_check_lex and the full pipeline; the file-system configurations of C18 with one directory and three files (faults in files included directly and through another file); each case enumerated once; non-trivial = splice cases with at least one neighbouring token, pipeline cases with at least one statement node; outcomes = distinct (gating decision, diagnostic counts) observations",
         assumptions: vec![
             "pipeline cases on which semantic analysis panics are C03's business and are skipped here (counted)",
             "the bare word OPENQASM (no white space after it) is a keyword for the lexer, so only header forms with white space count as malformed version headers",
@@ -101,7 +101,7 @@ pub fn malformed_gen(depth: usize) -> Vec<(String, &'static str, bool)> {
         }
     }
     // floats with an exponent marker and no digit after it
-    for m in ["1", "0", "1.5", "1.", ".5", "10_0", "1_0.0_1"] {
+    for m in ["1", "0", "1.5", "1.", ".5", "10_0", "1_0.0_1", "0b1", "0o17", "0b10.", "0o7.5"] {
         for e in ["e", "E"] {
             for sign in ["", "+", "-"] {
                 for u in ["", "_", "__"] {
